@@ -70,3 +70,25 @@ func VerifC09Chain(nl, ll, k int) {
 	}
 	verifC09Check(b)
 }
+
+// verifShifted builds the "shifted reading" family: `units` copies of [01 x 00] (read in sequence:
+// many one-octet names), then [01 00 00], then k compression pointers to one explored target offset
+// 0..5 — a target inside a unit reads the same bytes as one chain of labels that never met a
+// terminator in sequence, so the name limit must hold along the pointer as well.
+func verifShifted(units, x, k int) []byte {
+	var b []byte
+	for i := 0; i < units; i++ {
+		b = append(b, 1, byte(x), 0)
+	}
+	b = append(b, 1, 0, 0)
+	t := verifChoice("target", 6)
+	for i := 0; i < k; i++ {
+		b = append(b, 0xc0, byte(t))
+	}
+	return b
+}
+
+// VerifC09Shifted: cost bounds on the shifted-reading family.
+func VerifC09Shifted(units, x, k int) {
+	verifC09Check(verifShifted(units, x, k))
+}
